@@ -85,13 +85,18 @@ def run(repo: Repo) -> Result:
         _role(repo, res, sites, "ancestors of a name (get_parent_modules)", gpm, gpm_reach)
     # level flattening happens somewhere between the public entry point (keyword `level_limit`) and the graph that is built
     g = repo.classes.get(f"{NXGRAPH}.NetworkxGraph") or next((c for c in repo.classes.values() if c.name == "NetworkxGraph"), None)
-    roots = [g.methods["__init__"]] if g is not None and "__init__" in g.methods else []
-    roots += [f for f in repo.all_functions() if f.module.name == "pytestarch.pytestarch" and f.cls is None and f.outer is None and f.name.startswith("get_evaluable_architecture")]
-    if not roots:
+    init = [g.methods["__init__"]] if g is not None and "__init__" in g.methods else []
+    entries = [f for f in repo.all_functions() if f.module.name == "pytestarch.pytestarch" and f.cls is None and f.outer is None and f.name.startswith("get_evaluable_architecture")]
+    if not init and not entries:
         res.undecide("C14.R2", f"{NXGRAPH}::NetworkxGraph.__init__", "neither the constructor of the public graph class nor the public entry points were found")
     else:
-        reach = ({f.fq for f in reachable_funcs(repo, roots, byname=False)} | {r.fq for r in roots}) - gpm_reach
-        _role(repo, res, sites, "level flattening (between get_evaluable_architecture / NetworkxGraph.__init__ and the graph)", roots[0], reach)
+        role = "level flattening (between get_evaluable_architecture / NetworkxGraph.__init__ and the graph)"
+        near = ({f.fq for f in reachable_funcs(repo, init, byname=False)} | {r.fq for r in init}) - gpm_reach
+        if any(s.name_typed and s.op in CUT_OPS and _top(s.fi).fq in near for s in sites) or not entries:
+            _role(repo, res, sites, role, (init or entries)[0], near)
+        else:  # flattening moved out of the graph class: anywhere on the way from the public entry points
+            far = ({f.fq for f in reachable_funcs(repo, entries, byname=False)} | {r.fq for r in entries}) - gpm_reach
+            _role(repo, res, sites, role, entries[0], far)
     # R3: hierarchy-based sub-module sets (search model, owned by C01)
     tmp = Result("C01")
     try:
